@@ -535,4 +535,387 @@ theorem column_independent_pair (S : Spec) (O : ValOps V) (hg : groupOK S = true
   rw [he] at d₂
   exact d₁.unique d₂
 
+/-! ### no request-dependent failure -/
+
+/-- a dict-returning loader lists its own field among the columns it can fill -/
+def selfInGroup (S : Spec) : Bool :=
+  S.loaders.all (fun ld => ld.group.isEmpty || decide (ld.name ∈ ld.group))
+
+/-- every halo dependency of every loader is a declared column (so a temporary column can be made) -/
+def depsDeclared (S : Spec) : Bool :=
+  S.loaders.all (fun ld => ld.haloDeps.all (fun d =>
+    decide (d ∈ names S.clean_dt_progen) || decide (d ∈ names S.user_dt)))
+
+theorem generated_wf2 : selfInGroup Spec.generated = true ∧ depsDeclared Spec.generated = true := by
+  refine ⟨by decide +kernel, by decide +kernel⟩
+
+def colNames (h : Halos V) : List String := h.cols.map (·.1)
+
+theorem has_iff {h : Halos V} {x : String} : h.has x = true ↔ x ∈ colNames h := by
+  unfold Halos.has colNames
+  rw [List.any_eq_true, List.mem_map]
+  constructor
+  · rintro ⟨p, hp, he⟩; exact ⟨p, hp, by simpa using he⟩
+  · rintro ⟨p, hp, he⟩; exact ⟨p, hp, by simpa using he⟩
+
+theorem dtLookup_some_of_mem {t : List (String × Dt)} {n : String} (h : n ∈ names t) : ∃ d, dtLookup t n = some d := by
+  cases hd : dtLookup t n with
+  | some d => exact ⟨d, rfl⟩
+  | none =>
+    exfalso
+    unfold dtLookup at hd
+    cases hf : t.find? (fun p => p.1 == n) with
+    | some p => simp [hf] at hd
+    | none =>
+      obtain ⟨p, hp, he⟩ := List.mem_map.mp h
+      have := List.find?_eq_none.mp hf p hp
+      simp [he] at this
+
+/-- everything `_load_halo_field(f)` touches is there: a loader, its raw columns among those read from
+disk, its halo dependencies and `f` itself among the columns of the per-file table -/
+def Ready (S : Spec) (rawAvail K : List String) (f : String) : Prop :=
+  ∃ ld, findLoader S f = some ld ∧ (∀ r ∈ ld.rawDeps, r ∈ rawAvail) ∧ (∀ d ∈ ld.haloDeps, d ∈ K) ∧ f ∈ K
+
+theorem readAll_some {h : Halos V} : ∀ {ns : List String}, (∀ n ∈ ns, n ∈ colNames h) → ∃ vs, readAll h ns = .ok vs
+  | [], _ => ⟨[], rfl⟩
+  | n :: ns, hn => by
+    obtain ⟨vs, hvs⟩ := readAll_some (h := h) (ns := ns) (fun m hm => hn m (List.mem_cons_of_mem _ hm))
+    have : h.has n = true := has_iff.mpr (hn n List.mem_cons_self)
+    exact ⟨h.val n :: vs, by simp [readAll, Halos.read, this, hvs]⟩
+
+theorem writeMember_some {S : Spec} {O : ValOps V} {rawAvail : List String} {h : Halos V} {g : String}
+    (hr : Ready S rawAvail (colNames h) g) :
+    ∃ h', writeMember S O rawAvail h g = .ok h' ∧ h'.cols = h.cols := by
+  obtain ⟨lg, hl, hraw, hdeps, hg⟩ := hr
+  obtain ⟨vs, hvs⟩ := readAll_some (h := h) hdeps
+  obtain ⟨d, hd⟩ := dtLookup_some_of_mem (t := h.cols) hg
+  have hall : (lg.rawDeps.all fun r => decide (r ∈ rawAvail)) = true := by
+    rw [List.all_eq_true]; intro r hr'; simpa using hraw r hr'
+  exact ⟨{ h with val := fun m => if m == g then O.cast d.kind d.bits (O.app g vs) else h.val m },
+    by simp [writeMember, hl, hall, hvs, Halos.write, hd], rfl⟩
+
+theorem writeMembers_some {S : Spec} {O : ValOps V} {rawAvail : List String} :
+    ∀ {ms : List String} {h : Halos V}, (∀ m ∈ ms, Ready S rawAvail (colNames h) m) →
+      ∃ h', writeMembers S O rawAvail h ms = .ok h' ∧ h'.cols = h.cols
+  | [], h, _ => ⟨h, rfl, rfl⟩
+  | m :: ms, h, hr => by
+    obtain ⟨h1, hw, hc⟩ := writeMember_some (O := O) (hr m List.mem_cons_self)
+    have hcn : colNames h1 = colNames h := by simp [colNames, hc]
+    obtain ⟨h2, hw2, hc2⟩ := writeMembers_some (O := O) (ms := ms) (h := h1)
+      (fun x hx => hcn ▸ hr x (List.mem_cons_of_mem _ hx))
+    exact ⟨h2, by simp [writeMembers, hw, hw2], hc2.trans hc⟩
+
+theorem loadField_some {S : Spec} {O : ValOps V} (hsg : selfInGroup S = true) (_hg : groupOK S = true)
+    {rawAvail : List String} {h : Halos V} {f : String}
+    (hK : ∀ x ∈ colNames h, Ready S rawAvail (colNames h) x) (hf : f ∈ colNames h) :
+    ∃ h' l, loadField S O rawAvail h f = .ok (h', l) ∧ h'.cols = h.cols := by
+  have hr := hK f hf
+  obtain ⟨ld, hl, hraw, hdeps, _⟩ := hr
+  unfold loadField
+  simp only [hl]
+  split
+  · obtain ⟨h1, hw, hc⟩ := writeMember_some (O := O) (hK f hf)
+    exact ⟨h1, [f], by simp [hw], hc⟩
+  · rename_i hne
+    have hall : (ld.rawDeps.all fun r => decide (r ∈ rawAvail)) = true := by
+      rw [List.all_eq_true]; intro r hr'; simpa using hraw r hr'
+    have hname := (findLoader_mem hl).2
+    have hmemL := (findLoader_mem hl).1
+    have hself : f ∈ ld.group := by
+      have := List.all_eq_true.mp hsg ld hmemL
+      simp only [Bool.or_eq_true, decide_eq_true_eq] at this
+      rcases this with h0 | h0
+      · exact absurd h0 hne
+      · exact hname ▸ h0
+    have hfm : f ∈ ld.group.filter (fun g => h.has g || (ld.selfAlways && g == f)) := by
+      rw [List.mem_filter]
+      exact ⟨hself, by simp [has_iff.mpr hf]⟩
+    have hready : ∀ m ∈ ld.group.filter (fun g => h.has g || (ld.selfAlways && g == f)),
+        Ready S rawAvail (colNames h) m := by
+      intro m hm
+      obtain ⟨_, hcond⟩ := List.mem_filter.mp hm
+      have : m ∈ colNames h := by
+        simp only [Bool.or_eq_true, Bool.and_eq_true, beq_iff_eq] at hcond
+        rcases hcond with h1 | ⟨_, h2⟩
+        · exact has_iff.mp h1
+        · exact h2 ▸ hf
+      exact hK m this
+    obtain ⟨h1, hw, hc⟩ := writeMembers_some (O := O) hready
+    refine ⟨h1, ld.group.filter (fun g => h.has g || (ld.selfAlways && g == f)), ?_, hc⟩
+    simp [hall, hfm, hw]
+
+theorem loadAll_some {S : Spec} {O : ValOps V} (hsg : selfInGroup S = true) (hg : groupOK S = true)
+    {rawAvail : List String} :
+    ∀ {order : List String} {st : Halos V × List String},
+      (∀ x ∈ colNames st.1, Ready S rawAvail (colNames st.1) x) → (∀ f ∈ order, f ∈ colNames st.1) →
+      ∃ st', loadAll S O rawAvail order st = .ok st'
+  | [], st, _, _ => ⟨st, rfl⟩
+  | f :: fs, st, hK, ho => by
+    unfold loadAll
+    split
+    · exact loadAll_some hsg hg hK (fun x hx => ho x (List.mem_cons_of_mem _ hx))
+    · obtain ⟨h1, l, hl, hc⟩ := loadField_some (O := O) hsg hg hK (ho f List.mem_cons_self)
+      have hcn : colNames h1 = colNames st.1 := by simp [colNames, hc]
+      simp only [hl]
+      exact loadAll_some (st := (h1, st.2 ++ l)) hsg hg (by simpa [hcn] using hK)
+        (fun x hx => by simpa [hcn] using ho x (List.mem_cons_of_mem _ hx))
+
+theorem nextLevel_loader {S : Spec} : ∀ {l next : List String}, nextLevel S l = .ok next →
+    ∀ x ∈ l, ∃ ld, findLoader S x = some ld
+  | [], _, _, x, hx => by simp at hx
+  | a :: as, next, hn, x, hx => by
+    unfold nextLevel at hn
+    cases ha : findLoader S a with
+    | none => simp [ha] at hn
+    | some la =>
+      simp only [ha] at hn
+      cases hr2 : nextLevel S as with
+      | error e => simp [hr2] at hn
+      | ok r2 =>
+        rcases List.mem_cons.mp hx with rfl | hx
+        · exact ⟨la, ha⟩
+        · exact nextLevel_loader hr2 x hx
+
+theorem nextLevel_src {S : Spec} : ∀ {l next : List String}, nextLevel S l = .ok next →
+    ∀ x ∈ next, ∃ f ∈ l, x ∈ depsOfField S f
+  | [], next, hn, x, hx => by simp [nextLevel] at hn; subst hn; simp at hx
+  | a :: as, next, hn, x, hx => by
+    unfold nextLevel at hn
+    cases ha : findLoader S a with
+    | none => simp [ha] at hn
+    | some la =>
+      simp only [ha] at hn
+      cases hr2 : nextLevel S as with
+      | error e => simp [hr2] at hn
+      | ok r2 =>
+        simp only [hr2] at hn
+        cases hn
+        rcases List.mem_append.mp hx with h4 | h4
+        · exact ⟨a, by simp, by simp [depsOfField, ha, h4]⟩
+        · obtain ⟨f, hf, hxf⟩ := nextLevel_src hr2 x h4
+          exact ⟨f, List.mem_cons_of_mem _ hf, hxf⟩
+
+theorem levels_loader {S : Spec} : ∀ (fuel : Nat) (l : List String) (lv : List (List String)),
+    levels S fuel l = .ok lv →
+      (∀ x ∈ lv.flatten, ∃ ld, findLoader S x = some ld) ∧
+      (∀ x ∈ lv.flatten, ∀ d ∈ depsOfField S x, d ∈ lv.flatten) ∧
+      (∀ x ∈ lv.flatten, x ∈ l ∨ ∃ f ∈ lv.flatten, x ∈ depsOfField S f)
+  | 0, l, lv, h => by
+    unfold levels at h
+    split at h
+    · cases h; simp
+    · cases h
+  | fuel + 1, l, lv, h => by
+    unfold levels at h
+    split at h
+    · cases h; simp
+    · cases hn : nextLevel S l with
+      | error e => simp [hn] at h
+      | ok next =>
+        simp only [hn] at h
+        cases hr : levels S fuel next with
+        | error e => simp [hr] at h
+        | ok rest =>
+          simp only [hr] at h
+          cases h
+          obtain ⟨i1, i2, i3⟩ := levels_loader fuel next rest hr
+          obtain ⟨_, hmem⟩ := levels_sorted fuel next rest hr
+          have hlood : ∀ x ∈ l, ∃ ld, findLoader S x = some ld := nextLevel_loader hn
+          refine ⟨?_, ?_, ?_⟩
+          · intro x hx
+            simp only [List.flatten_cons, List.mem_append] at hx
+            rcases hx with hx | hx
+            · exact hlood x hx
+            · exact i1 x hx
+          · intro x hx d hd
+            simp only [List.flatten_cons, List.mem_append] at hx ⊢
+            rcases hx with hx | hx
+            · exact Or.inr (hmem d (nextLevel_mem hn x hx d hd))
+            · exact Or.inr (i2 x hx d hd)
+          · intro x hx
+            simp only [List.flatten_cons, List.mem_append] at hx
+            rcases hx with hx | hx
+            · exact Or.inl hx
+            · right
+              rcases i3 x hx with h3 | ⟨f, hf, hxf⟩
+              · obtain ⟨f, hf, hxf⟩ := nextLevel_src hn x h3
+                exact ⟨f, by simp [hf], hxf⟩
+              · exact ⟨f, by simp [hf], hxf⟩
+
+theorem extraCols_names {S : Spec} : ∀ {l : List String} {ex : List (String × Dt)},
+    extraCols S l = .ok ex → ex.map (·.1) = l
+  | [], ex, h => by simp [extraCols] at h; subst h; rfl
+  | f :: fs, ex, h => by
+    unfold extraCols at h
+    split at h
+    · rename_i d r hdt hr
+      cases h
+      simp [extraCols_names hr]
+    · cases h
+    · cases h
+
+theorem extraCols_some {S : Spec} : ∀ {l : List String},
+    (∀ f ∈ l, f ∈ names S.clean_dt_progen ∨ f ∈ names S.user_dt) → ∃ ex, extraCols S l = .ok ex
+  | [], _ => ⟨[], rfl⟩
+  | f :: fs, h => by
+    obtain ⟨r, hr⟩ := extraCols_some (S := S) (l := fs) (fun x hx => h x (List.mem_cons_of_mem _ hx))
+    by_cases hc : f ∈ names S.clean_dt_progen
+    · obtain ⟨d, hd⟩ := dtLookup_some_of_mem hc
+      exact ⟨(f, d) :: r, by simp [extraCols, hc, hd, hr]⟩
+    · have hu : f ∈ names S.user_dt := by
+        rcases h f List.mem_cons_self with h1 | h1
+        · exact absurd h1 hc
+        · exact h1
+      obtain ⟨d, hd⟩ := dtLookup_some_of_mem hu
+      exact ⟨(f, d) :: r, by simp [extraCols, hc, hd, hr]⟩
+
+/-- **no_request_dependent_failure.**  Once the requested names are declared columns whose dependency
+chains end inside the table (i.e. the allocation succeeded: the request is *valid*), nothing that follows
+can fail because of *which* columns were or were not requested: the dependency capture terminates, every
+temporary column can be created, and the loading loop finds, for every field of `fields_with_deps`, its
+loader, its raw columns among `raw_dependencies`, and every halo column it reads or writes in the
+per-file table — for any combination, any order, with any group members present or absent. -/
+theorem no_request_dependent_failure (S : Spec) (O : ValOps V)
+    (hg : groupOK S = true) (hsg : selfInGroup S = true) (hdd : depsDeclared S = true)
+    (cols0 : List (String × Dt))
+    (hvalid : ∀ f ∈ cols0.map (·.1), resolvesS S (S.loaders.length + 1) f = true) :
+    ∃ D ex, deps S (cols0.map (·.1)) = .ok D ∧ extraCols S D.extra = .ok ex ∧
+      ∀ (cols : List (String × Dt)) (val : String → V), cols.map (·.1) = cols0.map (·.1) →
+        ∃ st', loadAll S O D.raw D.fieldsWithDeps ({ cols := cols ++ ex, val := val }, []) = .ok st' := by
+  obtain ⟨lv, hlv⟩ := levels_ok S _ _ hvalid
+  obtain ⟨i1, i2, i3⟩ := levels_loader _ _ _ hlv
+  obtain ⟨_, hmem0⟩ := levels_sorted _ _ _ hlv
+  have hD : deps S (cols0.map (·.1)) = .ok
+      { raw := dedup (lv.flatten.flatMap (fun f => match findLoader S f with | some l => l.rawDeps | none => [])),
+        fieldsWithDeps := dedup lv.flatten.reverse,
+        extra := dedup ((lv.flatten.flatMap (fun f => match findLoader S f with | some l => l.haloDeps | none => [])).filter
+          (fun k => !(decide (k ∈ cols0.map (·.1))))).reverse } := by
+    unfold deps; rw [hlv]; rfl
+  -- the temporary columns are dependencies of processed fields
+  have hextra : ∀ x, x ∈ dedup ((lv.flatten.flatMap (fun f => match findLoader S f with | some l => l.haloDeps | none => [])).filter
+          (fun k => !(decide (k ∈ cols0.map (·.1))))).reverse ↔
+      (∃ f ∈ lv.flatten, x ∈ depsOfField S f) ∧ ¬ x ∈ cols0.map (·.1) := by
+    intro x
+    simp only [mem_dedup, List.mem_reverse, List.mem_filter, List.mem_flatMap, depsOfField,
+      Bool.not_eq_eq_eq_not, Bool.not_true, decide_eq_false_iff_not]
+    exact Iff.rfl
+  have hexdecl : ∀ f ∈ dedup ((lv.flatten.flatMap (fun f => match findLoader S f with | some l => l.haloDeps | none => [])).filter
+          (fun k => !(decide (k ∈ cols0.map (·.1))))).reverse,
+      f ∈ names S.clean_dt_progen ∨ f ∈ names S.user_dt := by
+    intro x hx
+    obtain ⟨⟨f, hf, hxf⟩, _⟩ := (hextra x).mp hx
+    obtain ⟨ld, hld⟩ := i1 f hf
+    have := List.all_eq_true.mp (List.all_eq_true.mp hdd ld (findLoader_mem hld).1) x
+      (by simpa [depsOfField, hld] using hxf)
+    simpa using this
+  obtain ⟨ex, hex⟩ := extraCols_some hexdecl
+  refine ⟨_, ex, hD, hex, ?_⟩
+  intro cols val hnames
+  have hexn := extraCols_names hex
+  -- the columns of the per-file table are exactly the processed fields
+  have hK : ∀ x, x ∈ colNames ({ cols := cols ++ ex, val := val } : Halos V) ↔ x ∈ lv.flatten := by
+    intro x
+    simp only [colNames, List.map_append, List.mem_append, hnames, hexn]
+    constructor
+    · rintro (hx | hx)
+      · exact hmem0 x hx
+      · obtain ⟨⟨f, hf, hxf⟩, _⟩ := (hextra x).mp hx
+        exact i2 f hf x hxf
+    · intro hx
+      by_cases hc : x ∈ cols0.map (·.1)
+      · exact Or.inl hc
+      · rcases i3 x hx with h3 | h3
+        · exact absurd h3 hc
+        · exact Or.inr ((hextra x).mpr ⟨h3, hc⟩)
+  apply loadAll_some hsg hg
+  · intro x hx
+    have hxi := (hK x).mp hx
+    obtain ⟨ld, hld⟩ := i1 x hxi
+    refine ⟨ld, hld, ?_, ?_, hx⟩
+    · intro r hr
+      simp only [mem_dedup, List.mem_flatMap]
+      exact ⟨x, hxi, by simp [hld, hr]⟩
+    · intro d hd
+      exact (hK d).mpr (i2 x hxi d (by simp [depsOfField, hld, hd]))
+  · intro f hf
+    exact (hK f).mpr (by simpa [mem_dedup] using hf)
+
+/-- the subsample bookkeeping finds its index columns whatever was requested: `_setup_fields` adds
+`npstart{AB}` / `npout{AB}` (and the `_merge` columns for cleaned catalogs) for every loaded subsample. -/
+theorem setupFields_index_cols (S : Spec) (req : Req) (cleaned : Bool) (loadAB : List String) (haloLc : Bool)
+    (ab : String) (hab : ab ∈ loadAB) :
+    ("npstart" ++ ab) ∈ (setupFields S req cleaned loadAB haloLc).1 ∧
+    ("npout" ++ ab) ∈ (setupFields S req cleaned loadAB haloLc).1 ∧
+    (cleaned = true → ("npstart" ++ ab ++ "_merge") ∈ (setupFields S req cleaned loadAB haloLc).2 ∧
+                      ("npout" ++ ab ++ "_merge") ∈ (setupFields S req cleaned loadAB haloLc).2) := by
+  unfold setupFields
+  simp only
+  generalize (if haloLc = true then _ else _ : List String) = f0
+  generalize ((if cleaned = true then _ else _ : List String × List String)).2 = c0
+  have mono1 : ∀ (l : List String) (x y : String), x ∈ l → x ∈ appendIfMissing l y := by
+    intro l x y hx; unfold appendIfMissing; split
+    · exact hx
+    · exact List.mem_append_left _ hx
+  have self1 : ∀ (l : List String) (y : String), y ∈ appendIfMissing l y := by
+    intro l y; unfold appendIfMissing; split
+    · assumption
+    · simp
+  -- once present, a column stays through the remaining iterations
+  have keep : ∀ (abs : List String) (fc : List String × List String) (x : String),
+      (x ∈ fc.1 → x ∈ (abs.foldl (fun fc ab =>
+        (appendIfMissing (appendIfMissing fc.1 ("npstart" ++ ab)) ("npout" ++ ab),
+         if cleaned = true then appendIfMissing (appendIfMissing fc.2 ("npstart" ++ ab ++ "_merge")) ("npout" ++ ab ++ "_merge")
+         else fc.2)) fc).1) ∧
+      (x ∈ fc.2 → x ∈ (abs.foldl (fun fc ab =>
+        (appendIfMissing (appendIfMissing fc.1 ("npstart" ++ ab)) ("npout" ++ ab),
+         if cleaned = true then appendIfMissing (appendIfMissing fc.2 ("npstart" ++ ab ++ "_merge")) ("npout" ++ ab ++ "_merge")
+         else fc.2)) fc).2) := by
+    intro abs
+    induction abs with
+    | nil => intro fc x; exact ⟨id, id⟩
+    | cons a as ih =>
+      intro fc x
+      simp only [List.foldl_cons]
+      constructor
+      · intro hx; exact (ih _ x).1 (mono1 _ _ _ (mono1 _ _ _ hx))
+      · intro hx
+        apply (ih _ x).2
+        split
+        · exact mono1 _ _ _ (mono1 _ _ _ hx)
+        · exact hx
+  induction loadAB generalizing f0 c0 with
+  | nil => simp at hab
+  | cons a as ih =>
+    simp only [List.foldl_cons]
+    rcases List.mem_cons.mp hab with rfl | hab
+    · refine ⟨(keep as _ _).1 (mono1 _ _ _ (self1 _ _)), (keep as _ _).1 (self1 _ _), ?_⟩
+      intro hc
+      subst hc
+      simp only [if_true]
+      exact ⟨(keep as _ _).2 (mono1 _ _ _ (self1 _ _)), (keep as _ _).2 (self1 _ _)⟩
+    · exact ih hab _ _
+
+/-! ### non-vacuity on the generated tables -/
+
+/-- the worked example of the defect fixed in 5c0e0ca / 8516542: an uncleaned catalog, subsample A,
+`fields = ['sigmavMid_com', 'N']` loads; `sigmavMin_com`, `sigmavMaj_com` are temporary columns and are
+loaded before `sigmavMid_com`; the value of `sigmavMid_com` is its direct evaluation with float32
+temporaries. -/
+example :
+    (construct Spec.generated strOps 3
+      ["N", "npstartA", "npoutA", "sigmav3d_com", "sigmavMax_to_sigmav3d_com_i16", "sigmavMin_to_sigmav3d_com_i16"] []
+      (.list ["sigmavMid_com", "N"]) false ["A"] false).toOption.map
+        (fun r => (r.deps.fieldsWithDeps, r.deps.extra, r.table.val "sigmavMid_com")) =
+    some (["sigmavMin_com", "sigmavMaj_com", "npoutA", "npstartA", "N", "sigmavMid_com"],
+          ["sigmavMin_com", "sigmavMaj_com"],
+          "<f32>sigmavMid_com(<f32>sigmavMaj_com(),<f32>sigmavMin_com())") := by
+  decide +kernel
+
+/-- the hypotheses of the theorems hold for the tables generated from the current source, and the request
+`['sigmavMid_com', 'N']` satisfies the validity hypothesis of `no_request_dependent_failure` -/
+example : groupOK Spec.generated = true ∧ dtypesOK Spec.generated = true ∧
+    selfInGroup Spec.generated = true ∧ depsDeclared Spec.generated = true ∧
+    (∀ f ∈ ["sigmavMid_com", "N"], resolvesS Spec.generated (Spec.generated.loaders.length + 1) f = true) := by
+  refine ⟨generated_wf.1, generated_wf.2.1, generated_wf2.1, generated_wf2.2, by decide +kernel⟩
+
 end AbacusVerif.Fields
